@@ -23,11 +23,27 @@ def data(shape, kind, i):
     return ((np.arange(n, dtype=np.int64) * 13 + 5 * i) % 17 - 4).reshape(shape)
 
 
+def factory(kind, shape, i):
+    """A fresh, short-lived tensor factory per call (kinds differ in the optional keywords they accept)."""
+    base = data(shape, "int", i)
+    if kind == "factory:plain":
+        return lambda shape: base
+    if kind == "factory:arg_index":
+        return lambda shape, arg_index=7: base + arg_index
+    if kind == "factory:name":
+        return lambda shape, name="none": base + len(name)
+    return lambda shape, **kwargs: base + 100 * len(kwargs)
+
+
+def build_args(c):
+    return [factory(k, s, i) if k.startswith("factory:") else data(s, k, i) for i, (s, k) in enumerate(zip(c["shapes"], c["kinds"]))]
+
+
 def main():
     corpus = json.load(open(sys.argv[1]))
     out = []
     for c in corpus:
-        args = [data(s, k, i) for i, (s, k) in enumerate(zip(c["shapes"], c["kinds"]))]
+        args = build_args(c)
         kw = {k: tup(v) for k, v in c["kwargs"].items()}
         rec = {}
         try:
@@ -36,12 +52,24 @@ def main():
         except Exception as e:
             rec["exc"] = type(e).__name__
         try:
-            r = getattr(einx, c["op"])(c["desc"], *[a.copy() for a in args], **kw)
+            r = getattr(einx, c["op"])(c["desc"], *[a.copy() if hasattr(a, "copy") else a for a in args], **kw)
             rs = r if isinstance(r, (tuple, list)) else [r]
             rec["value"] = [np.asarray(x).tolist() for x in rs]
         except Exception as e:
             rec["value_exc"] = type(e).__name__
+        del args
         out.append(rec)
+    # every call once more, in the opposite order (each call now has other predecessors): same outcome expected
+    for c, rec in reversed(list(zip(corpus, out))):
+        args = build_args(c)
+        kw = {k: tup(v) for k, v in c["kwargs"].items()}
+        try:
+            r = getattr(einx, c["op"])(c["desc"], *[a.copy() if hasattr(a, "copy") else a for a in args], **kw)
+            rs = r if isinstance(r, (tuple, list)) else [r]
+            rec["again"] = [np.asarray(x).tolist() for x in rs]
+        except Exception as e:
+            rec["again_exc"] = type(e).__name__
+        del args
     print("C16GEN " + json.dumps(out))
 
 
